@@ -11,6 +11,8 @@ SOPS = "nrel/hive/state/vehicle_state/servicing_ops.py"
 CAN = "nrel/hive/state/simulation_state/update/cancel_requests.py"
 SSOPS = "nrel/hive/state/simulation_state/simulation_state_ops.py"
 ST = "nrel/hive/state/vehicle_state/servicing_trip.py"
+EOPS = "nrel/hive/state/entity_state/entity_state_ops.py"
+VEO = "nrel/hive/reporting/vehicle_event_ops.py"
 
 EXPLANATION = (
     "A waiting request can leave the simulation only through remove_request, whose only callers are pick_up_trip "
@@ -75,6 +77,8 @@ def run(ctx: Ctx):
                     ok = a[:3] == ["SIM", "ENV", "SELF.vehicle_id"]
                     ctx.check(ok and u.flows_to_result, "D3", "DU.provenance", f"{cname}.enter picks up with its own vehicle and the returned state contains the pickup", sc.enter, u.event.raw,
                               why_bad=f"pick_up_trip({', '.join(a)[:120]}) flows={u.flows_to_result}", construct=f"{cname}.enter:pickup-args")
+    # "none vanishes without a trace": the pickup record is written inside a catch-all that carries on silently
+    rules.rule_swallowed_regions(ctx, "D3")
     complete_phase(ctx)
     no_diversion(ctx)
     dropoff(ctx)
@@ -139,6 +143,7 @@ def no_diversion(ctx: Ctx):
     bad = cmp.compare_table(rows, lambda g, f: "leave" if (g["n"] == 0 or f.get(replan)) else "refuse")
     ctx.check(not bad, "D4", "CMP.no-diversion", "ServicingPoolingTrip.exit succeeds iff the plan is finished or the next activity is a pooling re-plan", fn,
               why_bad=f"differs on {bad[:3]}", construct="ServicingPoolingTrip.exit:table")
+    refusal_honoured(ctx)
     # terminal condition of ServicingTrip is the same predicate
     sc = states.state_class(repo, "ServicingTrip")
     t = repo.method(sc.cls, "_has_reached_terminal_state_condition")
@@ -149,6 +154,66 @@ def no_diversion(ctx: Ctx):
         ok = not cmp.compare_table(rows, lambda g, f: g["n"] == 0)
     ctx.check(ok, "D5", "CMP.no-diversion", "ServicingTrip is terminal iff len(route) == 0 (so the update after the drop-off leaves the activity)", t,
               why_bad="terminal condition differs", construct="ServicingTrip:terminal")
+
+
+# enter sites that may run although the previous activity's exit refused: function -> reason
+UNPAIRED_ENTER_ALLOWED = {
+    "_go_out_of_service_on_empty": "running out of energy is the property's stated exception ('unless that vehicle runs out of energy')",
+}
+
+
+def refusal_honoured(ctx: Ctx):
+    """D4: the refusal of a trip's exit is honoured wherever an activity is entered. Every call of
+    `enter` is fed the state produced by the previous activity's exit (so a refusal leaves no state to
+    enter on), is a delegation inside an enter, or sits in the out-of-energy helper, which is reached
+    only from move() under `is_empty`."""
+    repo = ctx.repo
+    rules.rule_transition(ctx, "D4")
+    idx = rules.index(repo)
+    sites = [s for s in idx.calls("enter", refs=True) if rules.in_pkg(s) and not s.file.startswith("nrel/hive/resources")]
+    n = 0
+    for s in sites:
+        fn = s.func
+        if fn is None or s.kind == "ref":
+            ctx.violation("D4", "TS.refusal-honoured", "enter referenced outside a call on a function path", file=s.file, line=s.line,
+                          function=s.qual, why="an enter that may run without the carrying activity's exit agreeing", construct=f"enter-ref:{s.qual}")
+            continue
+        verdict = None
+        for p in flow.paths(fn.node):
+            for ev in p.events:
+                if ev.raw is s.node:
+                    arg = ev.call.args[0] if ev.call.args else None
+                    v, why = rules._classify_enter_arg(fn, p, ev, arg, {"trip"}, ["ServicingTrip", "ServicingPoolingTrip"], ["ServicingTrip", "ServicingPoolingTrip"])
+                    verdict = (v, why)
+                    break
+            if verdict:
+                break
+        n += 1
+        inst = f"{fn.qualname}: enter site"
+        if verdict and verdict[0] == "ok":
+            ctx.ok("D4", "TS.refusal-honoured", inst, fn, s.node, verdict[1])
+        elif fn.qualname in UNPAIRED_ENTER_ALLOWED:
+            ctx.ok("D4", "TS.refusal-honoured", inst, fn, s.node, "allowed: " + UNPAIRED_ENTER_ALLOWED[fn.qualname])
+        else:
+            ctx.violation("D4", "TS.refusal-honoured", inst, fn, s.node,
+                          why=("an activity is entered here although a trip with passengers on board may have refused to be left: "
+                               + (verdict[1] if verdict else "enter call not on an analysable path")),
+                          construct=f"{fn.qualname}:enter-ignores-refusal")
+    ctx.require(n >= 2, "fewer than two enter sites found")
+    # the out-of-energy helper is reached only from move(), only when the battery is empty
+    for name in UNPAIRED_ENTER_ALLOWED:
+        def ok(s):
+            f = s.func
+            if f is None or f.qualname != "move":
+                return None
+            for p in flow.paths(f.node):
+                for ev in p.events:
+                    if ev.raw is s.node:
+                        if any(pol is True and isinstance(a, ast.Call) and flow.dump(a.func).endswith(".is_empty") for a, pol in p.facts()):
+                            return "move(), on the path where mechatronics.is_empty(...) holds"
+                        return None
+            return None
+        rules.rule_callers(ctx, "D4", name, ok, f"{name} is reached only from move() when the battery is empty", 1)
 
 
 def dropoff(ctx: Ctx):
@@ -244,6 +309,13 @@ def selftest():
         V("default-update-reupdates", VSF, "                        return updated_next_state._perform_update(updated_sim, env)", "                        return updated_next_state.update(updated_sim, env)", rule="ORD.terminal"),
         V("dropoff-not-empty-guard", ST, "            if len(moved_vehicle.vehicle_state.route) == 0:", "            if len(moved_vehicle.vehicle_state.route) <= 1:", rule="DU.provenance"),
         V("servicing-enter-any-prev", ST, "        elif not vehicle.vehicle_state.vehicle_state_type == VehicleStateType.DISPATCH_TRIP:", "        elif vehicle.vehicle_state.vehicle_state_type == VehicleStateType.SERVICING_TRIP:", rule="GD.PREV"),
+        V("transition-forced-oos", EOPS, "    elif not exit_sim:\n        return None, None\n    else:\n        enter_error, enter_sim = next_state.enter(exit_sim, env)", "    elif not exit_sim and next_state.__class__.__name__ != \"OutOfService\":\n        return None, None\n    else:\n        enter_error, enter_sim = next_state.enter(exit_sim if exit_sim else sim, env)", rule="TS"),
+        V("oos-helper-weakened-guard", "nrel/hive/state/vehicle_state/vehicle_state_ops.py", "        if mechatronics.is_empty(less_energy_vehicle):\n            # impossible to move, let's transition to OutOfService\n            return _go_out_of_service_on_empty(sim, env, vehicle_id)", "        if mechatronics.is_empty(less_energy_vehicle) or traverse_result.traversal_distance_km > 1000:\n            # impossible to move, let's transition to OutOfService\n            return _go_out_of_service_on_empty(sim, env, vehicle_id)", rule="WMC.callers"),
+        V("oos-helper-unguarded", "nrel/hive/state/vehicle_state/vehicle_state_ops.py", "    if error:\n        return error, None\n    elif traverse_result is None:\n        return None, None\n", "    if error:\n        return error, None\n    elif traverse_result is None:\n        return _go_out_of_service_on_empty(sim, env, vehicle_id)\n", rule="WMC.callers"),
+        V("pickup-report-divides", VEO, "        \"price\": request.value,\n        \"geoid\": geoid,", "        \"price\": request.value,\n        \"price_per_seat\": request.value / len(request.passengers),\n        \"geoid\": geoid,", rule="EV.swallowed"),
+        V("pickup-report-looks-up", VEO, "        \"fleet_id\": request.membership,\n        \"vehicle_memberships\": vehicle.membership.to_json(),\n        \"price\": request.value,", "        \"fleet_id\": request.membership,\n        \"first_passenger\": request.passengers[0].id,\n        \"vehicle_memberships\": vehicle.membership.to_json(),\n        \"price\": request.value,", rule="EV.swallowed"),
+        V("twin-pickup-report-const-division", VEO, "        \"price\": request.value,\n        \"geoid\": geoid,", "        \"price\": request.value,\n        \"price_cents\": request.value / 0.01,\n        \"geoid\": geoid,", kind="twin"),
+        V("twin-pickup-report-guarded-division", VEO, "        \"price\": request.value,\n        \"geoid\": geoid,", "        \"price\": request.value,\n        \"price_per_seat\": request.value / len(request.passengers) if request.passengers else 0.0,\n        \"geoid\": geoid,", kind="twin"),
         V("twin-exit-mirror", ST, "        if len(self.route) == 0:\n            return None, sim\n        else:\n            return None, None", "        if len(self.route) != 0:\n            return None, None\n        else:\n            return None, sim", kind="twin"),
         V("twin-cancel-mirror", CAN, "            if sim.sim_time < this_request_cancel_time:", "            if not (sim.sim_time >= this_request_cancel_time):", kind="twin"),
     ] + _auto()
